@@ -63,9 +63,10 @@ type Loop struct {
 
 // Analyzer holds per-run state.
 type Analyzer struct {
-	P     *load.Prog
-	R     *oblig.Report
-	Loops []*Loop
+	lastSortWhy string // why the last candidate sort call was rejected (for reports)
+	P           *load.Prog
+	R           *oblig.Report
+	Loops       []*Loop
 	// CallerOrderElem: when set (e.g. "openfga/v1.TypeDefinition"), ranging a slice of pointers to
 	// that type in the caller's order is an order source too, unless the ranged variable is a
 	// fresh copy sorted by a total comparator (the property demands independence of that order).
